@@ -82,6 +82,14 @@ fn render_value(any: &(dyn Any + Send + Sync)) -> String {
         format!("[{}]", v.iter().map(|l| l.map_or("-".to_string(), |l| l.to_string())).collect::<Vec<_>>().join(","))
     } else if let Some(v) = any.downcast_ref::<Vec<Option<MultiDimLoad>>>() {
         format!("[{}]", v.iter().map(|l| l.map_or("-".to_string(), |l| l.to_string())).collect::<Vec<_>>().join(","))
+    } else if let Some(v) = any.downcast_ref::<HashMap<Job, (usize, usize)>>() {
+        // e.g. first / last activity index of every multi job of a tour (fast service feature)
+        let mut items = v
+            .iter()
+            .map(|(job, range)| format!("{}:{range:?}", job.dimens().get_job_id().cloned().unwrap_or_default()))
+            .collect::<Vec<_>>();
+        items.sort();
+        format!("{{{}}}", items.join(","))
     } else if let Some(v) = any.downcast_ref::<HashSet<String>>() {
         let mut items = v.iter().cloned().collect::<Vec<_>>();
         items.sort();
